@@ -433,7 +433,7 @@ class Interp:
             outs = []
             for q in f.paths:
                 out = q.outcome
-                q.env = f.outer
+                q.env = dict(f.outer)
                 q.outcome = None
                 if out and out[0] == 'raise':
                     q.outcome = out
